@@ -443,12 +443,18 @@ type Factory struct {
 	SignalErr map[string]bool // target ip -> fail the next signal
 	Creates   []string
 	Alive     []string // VerifyReplicaAlive calls
+	// CreateDelay stretches Create so that concurrent add requests overlap
+	CreateDelay time.Duration
 }
 
 func (fa *Factory) Create(address string) (types.Backend, error) {
 	fa.mu.Lock()
 	fa.Creates = append(fa.Creates, address)
+	d := fa.CreateDelay
 	fa.mu.Unlock()
+	if d > 0 {
+		time.Sleep(d) // connecting and opening a replica takes a while; concurrent requests overlap here
+	}
 	f := fa.W.Fakes[address]
 	if f == nil {
 		return nil, fmt.Errorf("dial %s: connection refused", address)
